@@ -65,8 +65,11 @@ contract('gnpy.core.network.set_amplifier_voa', props=['C09', 'C08'],
                   ('no_voa_otherwise', 'implies(old(amp.out_voa) is None and not auto, amp.out_voa == 0)'),
                   # the VOA is compensated by gain and power offset: power after the VOA is unchanged
                   ('compensated', 'implies(old(amp.out_voa) is None, amp.effective_gain - amp.out_voa == old(amp.effective_gain))'),
-                  ('delta_p_compensated', 'implies(auto, amp.delta_p - amp.out_voa == old(amp.delta_p))')],
-         modifies=['amp.out_voa', 'amp.in_voa', 'amp.delta_p', 'amp.effective_gain'])
+                  ('delta_p_compensated', 'implies(auto, amp.delta_p - amp.out_voa == old(amp.delta_p))'),
+                  ('delta_p_kept_otherwise', 'implies(not auto, amp.delta_p == old(amp.delta_p))'),
+                  ('delta_p_presence', 'iff(amp.delta_p is None, old(amp.delta_p) is None)'),
+                  ('gain_kept_otherwise', 'implies(not auto, amp.effective_gain == old(amp.effective_gain))')],
+         modifies=[('amp.out_voa', real()), ('amp.in_voa', real()), ('amp.delta_p', opt(real())), ('amp.effective_gain', real())])
 
 NODE_E = AMPN
 contract('gnpy.core.network.compute_gain_power_and_tilt_target', props=['C09', 'C17'],
@@ -159,6 +162,9 @@ contract('gnpy.core.network.set_one_amplifier', name='gnpy.core.network.set_one_
                   ('operator_values_kept_unless_saturating', 'implies(red == 0 and not power_mode and old(node.effective_gain) is not None, '
                                                              'node.effective_gain - (node.out_voa if old(node.out_voa) is None else 0) == old(node.effective_gain))'),
                   ('hand_over', 'result[1] == tgt[4]'),
+                  # what the next amplifier is told (offset, VOA) is the power actually leaving this one after its VOA
+                  ('hand_over_is_the_power_after_the_voa', 'implies(power_mode, result[0] - result[1] == node.delta_p - node.out_voa)'),
+                  ('hand_over_voa_is_the_amplifier_voa_unless_optimised', 'implies(old(node.out_voa) is not None or not power_mode or not node.params.out_voa_auto, result[1] == node.out_voa)'),
                   ('design_offset_recorded', 'node._delta_p == (node.delta_p if power_mode else result[0])')],
          modifies=['node.delta_p', 'node.effective_gain', 'node.tilt_target', 'node.out_voa', 'node.in_voa', 'node._delta_p',
                    'node.target_pch_out_dbm'], use_at_calls=False, max_paths=3000)
